@@ -93,7 +93,8 @@ def handleSeq : List String → Option String
     let s := seqOf s; let t := seqOf t
     if s.length != t.length then pure "ValueError" else
     pure (s!"{diffCount s t} | " ++ joinWith " " ((diffArray s t).map (fun b => if b then "1" else "0"))
-      ++ " | " ++ joinWith " " ((diffSegments s t).map (fun p => s!"{p.1}-{p.2}")))
+      ++ " | " ++ joinWith " " ((diffSegments s t).map (fun p => s!"{p.1}-{p.2}"))
+      ++ " | " ++ joinWith " " ((runs (diffArray s t)).map (fun p => s!"{p.1}-{p.2}")))
   | ["seq.subdivide", a, b, m] => do
     let m ← nat? m
     if m == 0 then none else
